@@ -49,8 +49,22 @@ def _drive(args):
                 n = min(max(1, n), 3000)
                 recs.append(vbsc.rec_content(r, n, style, off))
                 off += 4 + n
-        events, data = drv.vbs_write_events(recs, blocked, ('close',), api)
-        if api == 'func':
+        real = api == 'class' and tid % 7 == 3          # a real file on disk instead of io.BytesIO
+        if real:
+            import os
+            import tempfile
+            fd, path = tempfile.mkstemp(prefix='c03-', dir=os.path.join(core.VERIF, '.work'))
+            os.close(fd)
+            with open(path, 'w+b') as fobj:
+                events, data = drv.vbs_write_events(recs, blocked, ('close',), api, fobj)
+            with open(path, 'rb') as fobj:
+                events += drv.read_events(data, blocked, fileobj=fobj)[0]
+            os.unlink(path)
+        else:
+            events, data = drv.vbs_write_events(recs, blocked, ('close',), api)
+        if real:
+            pass
+        elif api == 'func':
             try:
                 lst = drv.mciipm.vbs_bytes_to_list(data, blocked=blocked)
                 events += [drv.ev('next', 0, 'rec', x) for x in lst] + [drv.ev('next', 0, 'stop')]
@@ -59,8 +73,9 @@ def _drive(args):
         else:
             events += drv.read_events(data, blocked)[0]
         out.append({'tid': tid, 'blk': blocked, 'strict': True, 'loc': False, 'events': events,
-                    '_desc': '%s %s records of lengths %s via %s API' % ('blocked' if blocked else 'unblocked', len(recs),
-                                                                         [len(x) for x in recs][:12], api)})
+                    '_desc': '%s %s records of lengths %s via %s API%s' % ('blocked' if blocked else 'unblocked', len(recs),
+                                                                           [len(x) for x in recs][:12], api,
+                                                                           ' on a real file' if real else '')})
     return out
 
 
